@@ -482,7 +482,14 @@ func runC15(planJSON []byte) (*RunResult, error) {
 	checkBytes()
 	checkRetention()
 	writers := []string{"sw", "plain", "buf", "builder"}
-	for _, s := range pl.Schedules {
+	scheds := pl.Schedules
+	big := len(in) > 32768 // stdin-sized inputs exist for the CLI probes; keep the library part light
+	if big {
+		scheds = scheds[:2]
+		writers = []string{"plain"}
+		res.count("big_inputs", 1)
+	}
+	for _, s := range scheds {
 		compare(C15Probe{Entry: "SanitizeReader", Read: s, Trunc: -1})
 		for _, wk := range writers {
 			compare(C15Probe{Entry: "SanitizeReaderToWriter", Read: s, Writer: wk, Trunc: -1})
@@ -500,7 +507,7 @@ func runC15(planJSON []byte) (*RunResult, error) {
 		res.count("inputs_with_exhaustive_splits", 1)
 	}
 	// early EOF: the stream's "crash"
-	if len(in) > 0 {
+	if len(in) > 0 && !big {
 		for _, j := range sampleIdx(r, len(in), 24) {
 			s := pl.Schedules[r.Intn(len(pl.Schedules))]
 			compare(C15Probe{Entry: "SanitizeReader", Read: s, Trunc: j})
